@@ -62,6 +62,7 @@ type Spec struct {
 	// the downstream sender (stream layer) returns an error from these calls: "hdr" (AppendHeaders), "data", "trl"
 	SenderErr   []string     `json:"sender_err,omitempty"`
 	// built-in filter histories (builtin.go): which route the request addresses, its body length, extra request headers
+	Flavour  string            `json:"flavour,omitempty"` // "" = xprotocol-like (status read from the response headers); "http" = status read from the context variable
 	Service  string            `json:"service,omitempty"`
 	BodyLen  int               `json:"body_len,omitempty"`
 	Headers  map[string]string `json:"headers,omitempty"`
@@ -144,7 +145,7 @@ func buildRequest(h *hist, connCtx context.Context) (context.Context, api.Header
 	cm.Next()
 	sctx := cm.Get()
 	_ = variable.Set(sctx, types.VariableStreamID, uint64(h.id))
-	_ = variable.Set(sctx, types.VariableDownStreamProtocol, protoName)
+	_ = variable.Set(sctx, types.VariableDownStreamProtocol, sp.proto())
 	if sp.VarGlobalMs > 0 {
 		_ = variable.SetString(sctx, types.VarProxyGlobalTimeout, strconv.Itoa(sp.VarGlobalMs))
 	}
